@@ -35,11 +35,17 @@ KINDS = ["fps", "pcovfps", "voronoi", "cur", "pcovcur"]
 FRACS = [0.29, 0.57, 0.5, 1.0, 0.75, 0.34, 0.999]
 
 
+NAN_CODE = 0x7FF8000000000000      # canonical quiet NaN; larger than the code of +inf (0x7FF0000000000000)
+
+
 def bits(x):
-    """order-preserving integer code of a non-negative binary64 (IEEE bit pattern)."""
+    """order-preserving integer code of a binary64 (IEEE bit pattern; minus the pattern of -x for x < 0).
+    Every NaN is coded as the canonical quiet NaN, i.e. ABOVE +inf: numpy's argmax treats NaN as maximal
+    and returns the FIRST NaN, which is exactly the first-index arg-max of the codes; Model/SelBuf.v `dec`
+    decodes that code to nan, on which every threshold test (s < t, s / first < t) is false, as in numpy."""
     x = float(x) + 0.0
     if math.isnan(x):
-        raise C.InexactOutput("NaN score")
+        return NAN_CODE
     if x < 0:
         return -struct.unpack("<q", struct.pack("<d", -x))[0]
     return struct.unpack("<q", struct.pack("<d", x))[0]
@@ -88,6 +94,7 @@ def gen_case(rng, quick):
             case["init_nd"] = rng.random() < 0.3        # passed as numpy array
         elif r < 0.8:
             case["init"] = rng.randrange(ncand)
+            case["init_np"] = rng.random() < 0.2         # np.int64
         else:
             case["init"] = "random"
     ninit = len(case["init"]) if isinstance(case["init"], list) else (1 if case["init"] is not None else 0)
@@ -124,8 +131,15 @@ def gen_case(rng, quick):
             st["thr_pos"] = rng.random()          # realised below, relative to observed scores
         elif tr < 0.55:
             st["full"] = True                     # full=True without a threshold is accepted
-        if isinstance(st["nts"], int) and rng.random() < 0.1:
-            st["nts_np"] = True                   # numpy integer (numbers.Integral)
+        if isinstance(st["nts"], int) and rng.random() < 0.15:
+            st["nts_np"] = rng.choice(["int64", "int32"])      # numpy integer (numbers.Integral)
+        # the same parameter VALUES as numpy scalars / other Python number types
+        if rng.random() < 0.25:
+            st["thr_np"] = rng.choice(["float64", "float32", "int"])
+        if rng.random() < 0.15:
+            st["full_np"] = True                  # np.bool_
+        if rng.random() < 0.15:
+            st["warm_np"] = True                  # warm_start given as np.bool_
         if si > 0 and rng.random() < 0.25:
             # cold re-fit of the already fitted object (possibly another initialisation / a smaller request)
             st["cold"] = True
@@ -184,6 +198,12 @@ def gen_presentation(rng, case):
     elif r < 0.7 and kind in ("fps", "voronoi"):
         e = rng.choice([k for k in range(-20, 13) if k != 0])
         case["pres"] = dict(x="float64", y="float64", scale=e)
+    elif r < 0.85 and kind in ("fps", "voronoi", "pcovfps"):
+        # finite data whose squared norms overflow in the dtype of X (all of them, or only the larger entries):
+        # distances become inf and inf - inf = NaN; np.argmax then returns the first NaN among the unselected
+        xp = rng.choice(["float64", "float64", "float32"])
+        e = rng.randint(503, 520) if xp == "float64" else rng.randint(55, 66)
+        case["pres"] = dict(x=xp, y="float64", scale=e, overflow=True)
 
 
 def present(case, pres):
@@ -197,7 +217,9 @@ def present(case, pres):
             X = X * 2.0 ** e
             unscale = 2.0 ** (-e)
         xp = pres["x"]
-        if xp == "fortran":
+        if e and xp == "float32":
+            X = X.astype(np.float32)        # |entries| <= 2^9 * 2^66: finite in single precision
+        elif xp == "fortran":
             X = np.asfortranarray(X)
         elif xp == "list":
             X = [[int(v) for v in row] for row in case["X"]]
@@ -219,7 +241,7 @@ def twin_exact(case):
     promoted to the very same float64 array; float32 / Fortran order / float32 targets change the arithmetic,
     which is exact only for the selectors whose scores are integer-valued on the lattice."""
     pres = case.get("pres")
-    if not pres:
+    if not pres or pres.get("overflow"):
         return False
     if case["kind"] in ("cur", "pcovcur"):
         # not reproducible even on identical input (eigsh starts from an unseeded random vector; svds on an
@@ -308,7 +330,8 @@ def run_impl(case, reference=False):
     sc_e = (pres or {}).get("scale", 0)
     kw = dict(case["extra"])
     if case["init"] is not None:
-        kw["initialize"] = np.array(case["init"]) if case.get("init_nd") else case["init"]
+        kw["initialize"] = (np.array(case["init"], dtype=np.int32) if case.get("init_nd")
+                            else np.int64(case["init"]) if case.get("init_np") else case["init"])
     bad = case.get("bad")
     sel = S.make_selector(case["kind"], case["axis"], **kw)
     pf = case.get("prefit")
@@ -356,6 +379,7 @@ def run_impl(case, reference=False):
         pos = min(case.get("bad_pos", len(stages)), len(stages))
         stages = stages[:pos] + [st] + stages[pos:]
     fitted = False
+    overflow_raised = None
     tainted = False      # a threshold stop cut selections off (F2) and no cold fit happened since
     for sti, st in enumerate(stages):
         warm = st.get("warm", fitted and not st.get("cold", False))
@@ -371,7 +395,12 @@ def run_impl(case, reference=False):
                 thr = realise_threshold(case, st, sel, fitted, base_int, scale)
                 if base_int and sc_e:
                     # same threshold on the rescaled data: absolute ones scale with the distances
-                    v = thr[0] / thr[1] * (4.0 ** sc_e if st["thr_kind"] == "absolute" else 1.0)
+                    v = thr[0] / thr[1]
+                    if st["thr_kind"] == "absolute":
+                        try:
+                            v = math.ldexp(v / scale, 2 * sc_e)
+                        except OverflowError:
+                            v = float("inf")
                     thr = (bits(v), 1, v)
                 st["thr_real"] = thr
         thr_float = None
@@ -380,10 +409,21 @@ def run_impl(case, reference=False):
                 thr_float = thr[0] / thr[1] / (scale if st.get("thr_kind", "absolute") == "absolute" else 1)
             else:
                 thr_float = thr[2]
-        nts_param = np.int64(st["nts"]) if st.get("nts_np") else st["nts"]
-        for k_, v_ in dict(n_to_select=nts_param, score_threshold=thr_float,
+        nts_param = st["nts"]
+        if st.get("nts_np") and isinstance(st["nts"], int):
+            nts_param = getattr(np, st["nts_np"] if isinstance(st["nts_np"], str) else "int64")(st["nts"])
+        thr_param = thr_float
+        if thr_float is not None and st.get("thr_np"):
+            if st["thr_np"] == "float64":
+                thr_param = np.float64(thr_float)
+            elif st["thr_np"] == "float32" and float(np.float32(thr_float)) == thr_float:
+                thr_param = np.float32(thr_float)          # only when single precision holds the value
+            elif st["thr_np"] == "int" and math.isfinite(thr_float) and thr_float == int(thr_float) and abs(thr_float) < 2 ** 53:
+                thr_param = int(thr_float)
+        full_param = np.bool_(st.get("full", False)) if st.get("full_np") else st.get("full", False)
+        for k_, v_ in dict(n_to_select=nts_param, score_threshold=thr_param,
                            score_threshold_type=st.get("thr_kind", "absolute"),
-                           full=st.get("full", False)).items():
+                           full=full_param).items():
             setattr(sel, k_, v_)      # what BaseEstimator.set_params does (VoronoiFPS hides them in **kwargs)
         recd = dict(cfg=dict(nts=st["nts"], thr=thr, thr_kind=st.get("thr_kind"), full=st.get("full", False),
                              warm=bool(warm)), tainted_before=bool(tainted and warm))
@@ -391,10 +431,11 @@ def run_impl(case, reference=False):
         with warnings.catch_warnings(record=True) as w:
             warnings.simplefilter("always")
             try:
+                warm_arg = np.bool_(warm) if st.get("warm_np") else warm
                 if Y is None:
-                    sel.fit(X, warm_start=warm)
+                    sel.fit(X, warm_start=warm_arg)
                 else:
-                    sel.fit(X, Y, warm_start=warm)
+                    sel.fit(X, Y, warm_start=warm_arg)
                 recd["stopped"] = any("Score threshold" in str(x.message) for x in w)
                 fitted = True
             except Exception as e:  # noqa
@@ -416,6 +457,11 @@ def run_impl(case, reference=False):
             if recd["stopped"] and len(recd["obs"]["sel"]) != recd["obs"]["nsel"]:
                 tainted = True
         recd["init"] = st.get("init", case["init"]) if not warm else None
+        if "error" in recd and (pres or {}).get("overflow") and st.get("expect") != "reject":
+            # overflowing data may make the scorer itself fail (LAPACK on inf/NaN): not a successful fit,
+            # nothing to state; the chain ends before this stage
+            overflow_raised = recd["error"]
+            break
         out.append(recd)
         if "error" in recd and st.get("expect") != "reject":
             break
@@ -427,7 +473,7 @@ def run_impl(case, reference=False):
                 break
     return dict(stages=out, stream=[code(v) for v in rec.calls], int_scores=int_scores,
                 full_fraction_after=getattr(sel, "full_fraction", None),
-                prefit_error=(prefit_error if pf is not None else None))
+                prefit_error=(prefit_error if pf is not None else None), overflow_raised=overflow_raised)
 
 
 def transform_probe(sel, case):
@@ -558,7 +604,12 @@ def bcase_coq(case, res):
         # the decoder of the IEEE bit patterns is itself checked against float literals
         for s in res["stages"]:
             for code_v, raw_v in list(zip(s["stream"], s["stream_raw"]))[:1]:
-                pairs += ["(%s, (%s)%%float)" % (C.Zl(a), C.fl(b)) for a, b in zip(code_v, raw_v)]
+                pairs += ["(%s, (%s)%%float)" % (C.Zl(a), C.fl(b)) for a, b in zip(code_v, raw_v) if b == b]
+    nan_seen = any(x != x for s in res["stages"] for v in s["stream_raw"] for x in v)
+    if nan_seen:
+        # NaN = NaN is false: the NaN code is checked to decode to a NaN instead
+        return "PrimFloat.is_nan (dec %d) && dec_ok [%s] && bchain_ok %s %s None [%s]" % (
+            NAN_CODE, "; ".join(pairs), C.zmat(cs), y, "; ".join(stages))
     return "dec_ok [%s] && bchain_ok %s %s None [%s]" % ("; ".join(pairs), C.zmat(cs), y, "; ".join(stages))
 
 
@@ -747,7 +798,8 @@ def run(ctx):
                  thr_abs=0, thr_rel=0, errors=0, inexact_skipped=0,
                  y1d=0, prefit=0, full_without_threshold=0, transform_new_data=0, float_relative_thr=0,
                  warm_after_clean_stop=0, warm_after_cut_stop=dict(duplicate=0, ValueError=0, IndexError=0, other=0),
-                 rejected_mid_chain=0, presentations={}, twin_compared=0)
+                 rejected_mid_chain=0, presentations={}, twin_compared=0, overflow_fit_raised=0,
+                 chains_with_nan_scores=0, chains_with_inf_scores=0, parameter_presentations={})
     directed = directed_cases()
     directed_seen = []
     for ci in range(len(directed) + ncases):
@@ -762,9 +814,16 @@ def run(ctx):
             continue
         pr = c.get("pres")
         if pr:
-            pk = "scale" if pr.get("scale") else "X:%s y:%s%s" % (pr["x"], pr["y"] if c["y"] is not None else "-",
+            pk = ("overflow:" + pr["x"]) if pr.get("overflow") else "scale" if pr.get("scale") else "X:%s y:%s%s" % (pr["x"], pr["y"] if c["y"] is not None else "-",
                                                                   "(big)" if pr.get("ybig") else "")
             stats["presentations"][pk] = stats["presentations"].get(pk, 0) + 1
+        stats["overflow_fit_raised"] += r.get("overflow_raised") is not None
+        stats["chains_with_nan_scores"] += any(x != x for s_ in r["stages"] for v_ in s_["stream_raw"] for x in v_)
+        stats["chains_with_inf_scores"] += any(math.isinf(x) for s_ in r["stages"][:1] for v_ in s_["stream_raw"][1:] for x in v_)
+        for s_ in c["stages"]:
+            for k_ in ("nts_np", "thr_np", "full_np", "warm_np"):
+                stats["parameter_presentations"][k_] = stats["parameter_presentations"].get(k_, 0) + bool(s_.get(k_))
+        stats["parameter_presentations"]["init_np"] = stats["parameter_presentations"].get("init_np", 0) + bool(c.get("init_np") or c.get("init_nd"))
         if ci < len(directed):
             last = r["stages"][-1]
             directed_seen.append(("obs", last["obs"]["sel"]) if "obs" in last else ("error", last.get("error")))
